@@ -301,6 +301,9 @@ func parallelDo(n int, workers int, fn func(i int)) {
 	if workers <= 0 {
 		workers = 16
 	}
+	if os.Getenv("VERIF_SERIAL") == "1" {
+		workers = 1 // see ./check: repeat of a run in which the library crashed under concurrent calls
+	}
 	var wg sync.WaitGroup
 	ch := make(chan int, workers*2)
 	for w := 0; w < workers; w++ {
